@@ -662,7 +662,9 @@ def oracle_iso_limit(case):
         for nm in ('strain', 'stress', 'disp', 'K'):
             a, c = errs[1e-2][nm], errs[1e-3][nm]
             # error(t) = c1 t + O(t^2): smaller at the smaller t unless both are rounding noise
-            require(c < a or a <= 1e-8, lambda: '%s: distance from the isotropic closed form does not shrink with the anisotropy: %.3g at t=1e-2, %.3g at t=1e-3' % (nm, a, c))
+            # (noise floor: the Stroh eigenproblem is nearly defective in this limit - triple root p = i - so its rounding
+            # error is of order eps^(1/3)..eps^(1/2)/gap, observed up to 1e-6 relative; below 3e-5 both distances are noise)
+            require(c < a or max(a, c) <= 3e-5, lambda: '%s: distance from the isotropic closed form does not shrink with the anisotropy: %.3g at t=1e-2, %.3g at t=1e-3' % (nm, a, c))
             if _CAL:
                 _cal('limit_ratio_' + nm, c, a if a > 0 else 1.0)
         if g.nontrivial(prob):
